@@ -197,12 +197,15 @@ var stringAlphabets = [][]rune{
 	[]rune("äöüßñé¿¡ÿ\u0080"),
 	[]rune("€λЖ中日本語Ā߿ࠀ￿�퟿"),
 	[]rune("😀𝄞\U00010000\U0010ffff\U0001f600"),
+	// characters text handling likes to treat specially: byte order mark and its mirror image,
+	// separators, zero-width and control characters, quoting characters
+	[]rune("\ufeff\ufffe\u00a0\u2028\u200b\t\n\r\"\\%'\u007f\u0001"),
 }
 
 func genString(rt *rapid.T, maxBytes int, minRunes int) string {
-	class := rapid.IntRange(0, 4).Draw(rt, "strclass")
+	class := rapid.IntRange(0, 5).Draw(rt, "strclass")
 	var alpha []rune
-	if class == 4 {
+	if class == 5 {
 		for _, a := range stringAlphabets {
 			alpha = append(alpha, a...)
 		}
